@@ -329,7 +329,7 @@ class RFCOMM_Frame:
             length >>= 1
             information = data[3:-1]
         else:
-            length = (data[3] << 7) & (length >> 1)
+            length = (data[3] << 7) | (length >> 1)
             information = data[4:-1]
         fcs = data[-1]
 
@@ -342,8 +342,14 @@ class RFCOMM_Frame:
             information,
             with_credits=(frame_type == FrameType.UIH and p_f == 1),
         )
-        if frame.fcs != fcs:
-            logger.warning(f'FCS mismatch: got {fcs:02X}, expected {frame.fcs:02X}')
+        # The FCS covers the address, control (and, except for UIH, length) fields
+        # as received
+        if frame_type == FrameType.UIH:
+            expected_fcs = compute_fcs(data[:2])
+        else:
+            expected_fcs = compute_fcs(data[: 3 if data[2] & 0x01 else 4])
+        if expected_fcs != fcs:
+            logger.warning(f'FCS mismatch: got {fcs:02X}, expected {expected_fcs:02X}')
             raise InvalidPacketError('fcs mismatch')
 
         return frame
